@@ -1,0 +1,40 @@
+//go:build verif
+
+// Contracts for the govc verifier (see /verif/DESIGN.md). Comment-only file.
+package waitlist
+
+//@ # ---------------------------------------------------------------- abstract view of the waitlist module
+//@ # wlItem(w, a, pk, coin): the waitlist entry of delegator a for candidate pk in coin (nil: none). The lazily loading
+//@ # getters and the list-editing mutators are ASSUMED to read and update this view (representation axioms); what the
+//@ # transaction code does with the entries it gets is proved against them.
+//@ ghost wlItem(w *WaitList, a types.Address, pk types.Pubkey, coin types.CoinID) *Item
+//@ ghost wlCache() int
+
+//@ func (*WaitList).Get
+//@   trusted
+//@   ensures result == wlItem(wl, address, pubkey, coin)
+//@   ensures result != nil ==> result.Value != nil && result.Value.val >= 0 && result.Coin == coin
+//@   modifies wlCache
+//@ func iface RWaitList.Get
+//@   ensures result == wlItem(as(recv, "*WaitList"), arg0, arg1, arg2)
+//@   ensures result != nil ==> result.Value != nil && result.Value.val >= 0 && result.Coin == arg2
+//@   modifies wlCache
+//@ # the entry is removed and the ledger is told exactly what it held
+//@ func (*WaitList).Delete
+//@   trusted
+//@   requires wl != nil && wl.bus != nil
+//@   ensures wlItem(wl, address, pubkey, coin) == nil
+//@   ensures old(wlItem(wl, address, pubkey, coin)) != nil ==> ledgerDelta(wl.bus.checker, coin) == old(ledgerDelta(wl.bus.checker, coin)) - old(wlItem(wl, address, pubkey, coin).Value.val)
+//@   modifies wlItem(wl, address, pubkey, coin), wlCache, ledgerDelta(wl.bus.checker, coin)
+//@ # the entry holds the old amount plus the value (an existing entry is updated in place, otherwise a new one is made),
+//@ # and the ledger is told the value
+//@ func (*WaitList).AddWaitList
+//@   trusted
+//@   let it = wlItem(wl, address, pubkey, coin)
+//@   requires wl != nil && wl.bus != nil && value != nil
+//@   ensures it != nil && it.Value != nil
+//@   ensures it.Value.val == (old(it) == nil ? 0 : old(it.Value.val)) + old(value.val)
+//@   ensures old(it) == nil ==> fresh(it) && fresh(it.Value)
+//@   ensures old(it) != nil ==> it == old(it) && it.Value == old(it.Value)
+//@   ensures ledgerDelta(wl.bus.checker, coin) == old(ledgerDelta(wl.bus.checker, coin)) + old(value.val)
+//@   modifies wlItem(wl, address, pubkey, coin), wlCache, ledgerDelta(wl.bus.checker, coin), it != nil ? it.Value.val : nothing
